@@ -12,6 +12,7 @@ ASSUMPTIONS = ['clang-14 -O1 lowering is correct', 'x86 intrinsic models (min/ma
                'NaN payload/sign of an arithmetic NaN result is unspecified (results compared as IEEE values); min/max claimed for non-NaN operands only (as the property states)',
                'fma family: either the fused or the multiply-then-add result is accepted (as the property states)']
 MIN_COVERED = {'quick': 1400, 'thorough': 1500}
+JOB_BUDGET = {'quick': 700, 'thorough': 7200}   # wall clock per kernel body: a seeded / real defect on float64 fma-class kernels otherwise costs several 400 s searches per lane
 TIMEOUT = {'quick': 400, 'thorough': 1200}     # is_even/is_odd<double> on the conversion-based sse2 trunc need ~110 s per lane
 
 
